@@ -230,7 +230,7 @@ def adv_leaf(k, i, s):
 
 def adv_value(shape, k, i, s, mm):
     """place the adversarial leaf A: 0 A | 1 [A] | 2 {'t': A} | 3 {'t': A, 'a': 1} | 4 {A-as-key: 1} (hashable kinds) |
-    5 {'t': 'x', 'c': A} | 6 {'x': A} | 7 {'a': A} | 8 {'t': A, 'c': {}}; mm wraps the top mapping in a non-dict Mapping"""
+    5 {'t': 'x', 'c': A} | 6 {'x': A} | 7 {'a': A} | 8 {'t': A, 'c': {}} | 9 several odd keys of mixed kinds; mm wraps the top mapping in a non-dict Mapping"""
     A = adv_leaf(k, i, s)
     if shape == 0:
         return A
@@ -251,6 +251,12 @@ def adv_value(shape, k, i, s, mm):
         d = {'x': A}
     elif shape == 7:
         d = {'a': A}
+    elif shape == 9:
+        # several unexpected keys of kinds that cannot be ordered against each other (legal in YAML and Python data)
+        if k == 0 or k == 1 or k == 8:
+            d = {None: 1, 'q9': 2, 7: 3}
+        else:
+            d = {A: 1, 'q9': 2, 7: 3, None: 4}
     else:
         d = {'t': A, 'c': {}}
     return MiniMap(d) if mm else d
@@ -274,7 +280,7 @@ def body_adv_{name}(shape: int, k: int, i: int, s: str, mm: bool) -> int:
 # positions that are meaningful for each target (the others are covered by the generic domain)
 _SHAPES = {
     'tag_int': (2, 3, 4), 'tag_ext': (4, 6), 'tag_adj': (4, 5, 8), 'lit': (0, 1), 'enum': (0, 1), 'opt_enum': (0, 1),
-    'list_lit': (0, 1), 'dict_lit': (4, 7), 'struct': (4, 7), 'p1': (4, 7), 'dict_si': (4, 7),
+    'list_lit': (0, 1), 'dict_lit': (4, 7, 9), 'struct': (4, 7, 9), 'p1': (4, 7, 9), 'dict_si': (4, 7, 9),
 }
 for _n in T_ADV:
     _pre = "(" + " or ".join(f"shape == {x}" for x in _SHAPES[_n]) + ") and 0 <= k <= 8"
